@@ -971,6 +971,157 @@ func emitHash64(b *strings.Builder, fd *ast.FuncDecl) {
 	b.WriteString("]\n\n")
 }
 
+// ---------------------------------------------------------------- state a pack carries from one Write to the next
+//
+// For each of the eight pack types (struct + embedded AbstractPack): its unexported fields with their types, those of
+// them that can hold encoded bytes ([]byte, [N]byte, *DataOutputX, bytes.Buffer …), the fields assigned inside Write
+// or a method of the same type that Write calls (transitively), and the package-level variables of lang/pack that
+// Write (or such a method) mentions.  A cache of encoded bytes needs one of these.
+
+func structFields(f *ast.File, name string) []*ast.Field {
+	for _, d := range f.Decls {
+		gd, ok := d.(*ast.GenDecl)
+		if !ok || gd.Tok != token.TYPE {
+			continue
+		}
+		for _, sp := range gd.Specs {
+			ts := sp.(*ast.TypeSpec)
+			if st, ok := ts.Type.(*ast.StructType); ok && ts.Name.Name == name {
+				return st.Fields.List
+			}
+		}
+	}
+	return nil
+}
+
+func byteHolding(t string) bool {
+	return strings.Contains(t, "byte") || strings.Contains(t, "DataOutputX") || strings.Contains(t, "Buffer") || strings.Contains(t, "uint8")
+}
+
+func emitPackState(b *strings.Builder, packDir string, types []string, files map[string]*ast.File) {
+	// package-level variables of lang/pack
+	pkgVars := map[string]bool{}
+	ents, _ := os.ReadDir(packDir)
+	for _, e := range ents {
+		if e.IsDir() || !strings.HasSuffix(e.Name(), ".go") || strings.HasSuffix(e.Name(), "_test.go") {
+			continue
+		}
+		f := parse(filepath.Join(packDir, e.Name()))
+		for _, d := range f.Decls {
+			if gd, ok := d.(*ast.GenDecl); ok && gd.Tok == token.VAR {
+				for _, sp := range gd.Specs {
+					for _, n := range sp.(*ast.ValueSpec).Names {
+						pkgVars[n.Name] = true
+					}
+				}
+			}
+		}
+	}
+	var unexp, holding, assigned, pvars []string
+	for _, T := range types {
+		f := files[T]
+		var us, hs []string
+		for _, fl := range structFields(f, T) {
+			for _, n := range fl.Names {
+				if !ast.IsExported(n.Name) {
+					t := text(fl.Type)
+					us = append(us, fmt.Sprintf("(%s, %s)", leanStr(n.Name), leanStr(t)))
+					if byteHolding(t) {
+						hs = append(hs, leanStr(n.Name))
+					}
+				}
+			}
+		}
+		// closure of Write over methods of T called on the receiver
+		seen := map[string]bool{}
+		var asg, pv []string
+		addU := func(l *[]string, x string) {
+			for _, y := range *l {
+				if y == x {
+					return
+				}
+			}
+			*l = append(*l, x)
+		}
+		var visit func(name string)
+		visit = func(name string) {
+			if seen[name] {
+				return
+			}
+			seen[name] = true
+			fd := method(f, T, name)
+			if fd == nil {
+				return
+			}
+			recv := ""
+			if len(fd.Recv.List[0].Names) == 1 {
+				recv = fd.Recv.List[0].Names[0].Name
+			}
+			lhsField := func(e ast.Expr) {
+				for {
+					switch x := e.(type) {
+					case *ast.IndexExpr:
+						e = x.X
+						continue
+					case *ast.SliceExpr:
+						e = x.X
+						continue
+					case *ast.ParenExpr:
+						e = x.X
+						continue
+					}
+					break
+				}
+				if se, ok := e.(*ast.SelectorExpr); ok {
+					if id, ok := se.X.(*ast.Ident); ok && id.Name == recv {
+						addU(&asg, se.Sel.Name)
+					}
+				}
+				if id, ok := e.(*ast.Ident); ok && pkgVars[id.Name] {
+					addU(&pv, id.Name)
+				}
+			}
+			ast.Inspect(fd.Body, func(n ast.Node) bool {
+				switch x := n.(type) {
+				case *ast.AssignStmt:
+					for _, l := range x.Lhs {
+						lhsField(l)
+					}
+				case *ast.IncDecStmt:
+					lhsField(x.X)
+				case *ast.Ident:
+					if pkgVars[x.Name] {
+						addU(&pv, x.Name)
+					}
+				case *ast.CallExpr:
+					if se, ok := x.Fun.(*ast.SelectorExpr); ok {
+						if id, ok := se.X.(*ast.Ident); ok && id.Name == recv {
+							visit(se.Sel.Name)
+						}
+					}
+				}
+				return true
+			})
+		}
+		visit("Write")
+		q := func(xs []string) string {
+			ys := make([]string, len(xs))
+			for i, x := range xs {
+				ys[i] = leanStr(x)
+			}
+			return "[" + strings.Join(ys, ", ") + "]"
+		}
+		unexp = append(unexp, fmt.Sprintf("(%s, [%s])", leanStr(T), strings.Join(us, ", ")))
+		holding = append(holding, fmt.Sprintf("(%s, [%s])", leanStr(T), strings.Join(hs, ", ")))
+		assigned = append(assigned, fmt.Sprintf("(%s, %s)", leanStr(T), q(asg)))
+		pvars = append(pvars, fmt.Sprintf("(%s, %s)", leanStr(T), q(pv)))
+	}
+	fmt.Fprintf(b, "def packUnexportedFields : List (String × List (String × String)) := [\n  %s]\n\n", strings.Join(unexp, ",\n  "))
+	fmt.Fprintf(b, "def packByteHoldingFields : List (String × List String) := [\n  %s]\n\n", strings.Join(holding, ",\n  "))
+	fmt.Fprintf(b, "def packAssignedInWrite : List (String × List String) := [\n  %s]\n\n", strings.Join(assigned, ",\n  "))
+	fmt.Fprintf(b, "def packPkgVarsInWrite : List (String × List String) := [\n  %s]\n\n", strings.Join(pvars, ",\n  "))
+}
+
 func emitSkel(b *strings.Builder, name string, fd *ast.FuncDecl) {
 	fmt.Fprintf(b, "def skel_%s : List (String × String) := [", name)
 	if fd == nil {
@@ -1058,6 +1209,7 @@ func main() {
 	emitSteps(&b, "WriteHeader", method(dox, "DataOutputX", "WriteHeader"))
 	emitSteps(&b, "WriteOneWayHeader", method(dox, "DataOutputX", "WriteOneWayHeader"))
 	emitSteps(&b, "WriteIntBytes", method(dox, "DataOutputX", "WriteIntBytes"))
+	emitSteps(&b, "WriteSecureHeader", method(dox, "DataOutputX", "WriteSecureHeader"))
 
 	// ---- hash
 	hf := parse(filepath.Join(*repo, "util", "hash", "HashUtil.go"))
@@ -1185,6 +1337,16 @@ func main() {
 	hm := parse(filepath.Join(*repo, "util", "hmap", "IntIntMap.go"))
 	emitSkel(&b, "IntIntMap_ToBytes", method(hm, "IntIntMap", "ToBytes"))
 	emitSteps(&b, "IntIntMap_ToBytes", method(hm, "IntIntMap", "ToBytes"))
+
+	// ---- state carried between Writes
+	{
+		files["AbstractPack"] = ap
+		ts := []string{"AbstractPack"}
+		for _, p := range packs {
+			ts = append(ts, p.goType)
+		}
+		emitPackState(&b, packDir, ts, files)
+	}
 
 	// ---- constants
 	emitNat("hitmapLength", cs["HITMAP_LENGTH"])
